@@ -140,7 +140,7 @@ def run(tier: str, seed: int, pid="C07") -> int:
                     run_.nt(r["tid"] + e["form"] + str(e["n"]))
                 if pid == "C08" and e["op"] == "draw" and len(e["branches"]) >= 2:
                     run_.nt(r["tid"] + e["form"] + str(e["n"]) + str(e["params"]))
-    packs = None
+    packs = [p for p in sc.PACKS if p not in sc.OPT_IN] + ["fold"]
     cfgs = sc.configs(tier, seed, stats=("s0", "s1", "s2m"), packs=packs, max_n=(70 if tier == "quick" else 900))
     sres = [r for r in pmap(spec_job, [(c, "objects" if pid == "C07" else "global") for c in cfgs], procs=16, chunk=2) if r and r["events"]]
     for r in sres:
